@@ -28,11 +28,18 @@ SPAS = [
     (b"SPA30:31:32:33:34:35", "", ("10.0.0.14", 10022)),
     (b"SPA\xe9\x01\xfe:27", "Latin id", ("10.0.0.15", 10022)),  # identifier bytes >= 0x80 (latin-1 text on the API side)
 ]
+# identifiers are "SPA" + raw MAC octets and names are free text: a line feed / carriage return / NUL inside either
+SPAS_ODD = [
+    (b"SPA\x00\x0a\x0d\x1f\x20\x7f", "Line\nfeed", ("10.0.0.16", 10022)),
+    (b"SPA01:0a", "tab\tand\rreturn", ("10.0.0.17", 10022)),
+]
 # a neighbourhood full of spas (indices 5..29)
 SPAS += [(b"SPA40:41:42:43:44:%02d" % k, "Spa %d%s" % (k, "|x" if k % 7 == 0 else ""), ("10.0.0.%d" % (40 + k), 10022)) for k in range(25)]
 NBASE = 5  # the generators below draw from the first five; the neighbourhood is used by the many-spa plans only
+ODD0 = len(SPAS)
+SPAS += SPAS_ODD
 LAT = [0.05, 0.95, 3.95, 4.05, 9.95, 10.05]
-FILTERS = ["none", "address", "id", "other-id", "address+id", "subnet"]
+FILTERS = ["none", "address", "id", "other-id", "address+id", "subnet", "subnet+id"]
 
 
 class Responder:
@@ -83,6 +90,10 @@ def _run(ch, spas, filt, window, hdelay=0.0, stall=0.0):
     if filt in ("address", "address+id"):
         kw["spa_address"] = target.addr[0] if target else "10.0.0.99"
     if filt in ("id", "address+id"):
+        kw["spa_identifier"] = (target.id if target else b"SPA99").decode("latin1")
+    if filt == "subnet+id":
+        # both filters, and more than one spa answers at that address (a directed broadcast): only the requested one counts
+        kw["spa_address"] = "10.0.0.255"
         kw["spa_identifier"] = (target.id if target else b"SPA99").decode("latin1")
     if filt == "subnet":
         # the configured address is the directed broadcast address of the spas' sub-net (or a host name / NATed address):
@@ -249,6 +260,12 @@ def run(ctx):
             for m in (1, 2):
                 # with an id filter the requested spa is the LAST to answer in every round
                 plans.append((tuple([(5 + count - 1, 0.06, m)] + [(5 + k, 0.05, m) for k in range(count - 1)]), f, 0.0))
+    # odd bytes inside identifiers / names, alone and answering before an ordinary spa
+    for f in FILTERS:
+        for k in range(len(SPAS_ODD)):
+            plans.append((((ODD0 + k, 0.05, 1),), f, 0.0))
+            plans.append((((ODD0 + k, 0.05, 1), (0, 0.95, 1)), f, 0.0))
+            plans.append((((0, 0.05, 1), (ODD0 + k, 0.95, 2)), f, 0.0))
     # heavy reply multiplicity: more datagrams per second than the consumer drains
     for f in FILTERS:
         for m in (8, 12):
